@@ -1,5 +1,6 @@
 import Netconan.Model.Words
 import Netconan.Proofs.RegexAlpha
+import Netconan.Proofs.AsNumScan
 /-!
 # C11 – AS numbers: block-preserving, whole-number-only, keyed replacement
 -/
@@ -115,6 +116,46 @@ theorem only_listed_number_spans_change (nd : List (Nat × Nat)) (nums : List (L
   simp only [List.mem_map] at hr
   obtain ⟨n, hn, rfl⟩ := hr
   exact ⟨n, hn, litRe_alpha n ch hc⟩
+
+open NoSurvival in
+/-- **Whole-number-only, keyed replacement – the text-level statement in full.**  For every list of AS
+numbers (non-empty entries), salt and line: `anonymize_as_numbers` cuts the line into kept characters
+and replaced spans such that, reading left to right,
+
+* a span is replaced only if it *is* a listed number that stands alone – the character before it is a
+  non-digit (`\D`, Unicode-aware) or there is none, the character after it is a non-digit, the end of
+  the line, or the final newline – and it is replaced by `replacement salt <that number>` (block-
+  preserving by `replacement_spec`);
+* a character is kept only if **no** listed number stands alone at its position: every standalone
+  occurrence is replaced (also when listed numbers are prefixes of each other – the ordered
+  alternation backtracks through the look-ahead), and digits inside a longer number never are.
+
+Proved by computing the continuation-passing matcher exactly on this pattern shape
+(`Proofs/RegexRef.lean`, `AsPattern.lean`: literals, ordered alternation, group, look-behind
+alternatives, look-ahead – up to the model's own out-of-fuel answer, which `h` excludes). -/
+theorem listed_numbers_replaced_exactly_where_they_stand_alone (nd : List (Nat × Nat)) (nums : List (List Char))
+    (salt : List Char) (t : AsNum.T) (hmk : AsNum.mk nd nums salt = .ok t) (hW : nums ≠ []) (hne : ∀ n ∈ nums, n ≠ [])
+    (line out : List Char) (h : AsNum.anonymize t line = .ok out) :
+    ∃ segs : List Seg, line = srcs segs ∧ out = dsts segs ∧
+      ScanN nd nums (fun n rp => replacement salt n = .ok rp) [] segs :=
+  anonymize_scan nd nums salt t hmk hW hne line out h
+
+open NoSurvival in
+/-- what `ScanN` says at a kept character and at a replaced span, spelled out -/
+theorem scan_reading (nd : List (Nat × Nat)) (nums : List (List Char)) (R : List Char → List Char → Prop)
+    (left : List Char) (segs : List Seg) :
+    (∀ c, ScanN nd nums R left (.keep c :: segs) →
+      ¬ (prevOK nd left = true ∧ ∃ n ∈ nums, ∃ rest, c :: srcs segs = n ++ rest ∧ nextOK nd rest = true)) ∧
+    (∀ t rp, ScanN nd nums R left (.rep t rp :: segs) →
+      t ∈ nums ∧ prevOK nd left = true ∧ nextOK nd (srcs segs) = true ∧ R t rp) :=
+  ⟨fun _ h => h.1, fun _ _ h => h.1⟩
+
+open NoSurvival in
+/-- non-vacuity / reading aid (kernel-evaluated): with `\D` = everything but ASCII digits, `65001`
+stands alone in `as 65001,` but not in `x650010` -/
+example : let nd : List (Nat × Nat) := [(0, 47), (58, 1114111)]
+    (prevOK nd [' ', 's', 'a'] && nextOK nd [','] && !nextOK nd ['0'] && prevOK nd [] && !prevOK nd ['9']) = true := by
+  decide +kernel
 
 /-- block end points and their neighbours, kernel-evaluated through the whole function (tests) -/
 example : blockOf 64511 = 0 ∧ blockOf 64512 = 1 ∧ blockOf 65535 = 1 ∧ blockOf 65536 = 2
